@@ -3,7 +3,8 @@
 Lattice explorer on ``SpecialPerturbations._differentialEquation`` (total, per-term differences, (6,K) layouts) plus
 direct lattices on every anchored helper: Cunningham V/W and single-coefficient accelerations, coefficient loading,
 third-body / SRP / relativity formulae, visible-Sun fraction, Chebyshev ephemerides (continuity over every segment edge
-of the Earth-orientation span, own Chebyshev evaluation, analytic Sun / Moon) and the constants the model uses.
+of the Earth-orientation span on a coarse (84 s) and a fine (1 ulp of the Julian date .. 10 s, both sides) lattice, own
+Chebyshev evaluation, series index / argument consistency, analytic Sun / Moon) and the constants the model uses.
 Reference: ``verif/oracles/force_ref.py`` (algorithmically disjoint, see its docstring).
 """
 from __future__ import annotations
@@ -47,7 +48,11 @@ RULE = (
     "switch equals the oracle term; batch: (6,K) layouts with every state in every column equal the K=1 result; direct "
     "lattices on V/W, single-coefficient accelerations (every m<=n<=N), coefficient loading (every row of every file), "
     "third-body / relativity / SRP formulae, visible-Sun fraction through umbra/penumbra/sunlit, Chebyshev ephemerides at "
-    "every segment edge of 2014-01-01..2022-10-04 (continuity, own evaluation, scalar/vector path), analytic Sun/Moon on "
+    "every series boundary (4/8/16/32-day) of every segment and body in 2014-01-01..2022-10-04, at boundary +/- {1 ulp of "
+    "the Julian date = 4e-5 s, 1e-4, 1e-3, 0.02, 0.1, 0.5, 2, 10, 84.375, 168.75} s and the boundary itself (continuity "
+    "by second and first differences, own evaluation, series index/argument reconstruct the epoch, scalar/vector path); "
+    "the epoch alphabet of the total/term lattices contains instants 1 ulp / 1 ms / 50 ms / 0.3 s / 1 s before and 1 ms / "
+    "50 ms after a 4-, 16- and 32-day series boundary; analytic Sun/Moon on "
     "a 6-hour grid, constants. non-trivial = the configuration has at least one perturbation beyond J2 (total), the "
     "oracle term exceeds 100x the comparison tolerance (term), K>=2 (batch), n>=2 (V/W), m>=1 or n>=3 (single "
     "coefficients, coefficient loading), "
@@ -57,8 +62,11 @@ RULE = (
 ASSUMPTIONS = [
     "the ECEF<->ECI rotation of the oracle is the library's ecef2eci (frame correctness is C04's subject); "
     "_getRotationMatrix is checked against it, not against an own reduction",
-    "Julian dates are IEEE doubles; epochs are multiples of 2^-7 day (675 s) so that they are exact; the one off-grid "
-    "epoch per lattice is compared with the rotation-time uncertainty 1e-4 s x Earth rate added to the tolerance",
+    "Julian dates are IEEE doubles; epochs are multiples of 2^-7 day (675 s) so that they are exact; the off-grid "
+    "epochs of each lattice (one generic, the others a fraction of a second next to a Chebyshev series boundary) are "
+    "compared with the rotation-time uncertainty 1e-4 s x Earth rate added to the tolerance",
+    "all kernel series lengths are powers of two days and all series start at JD x.5, so that boundary +/- offset dates, "
+    "their difference to the boundary and the scaled Chebyshev argument are exact in doubles (checked per segment)",
     "the bundled coefficient files, kernel segment files and EOP table are the data (parsed independently by the oracle)",
     "astronomical unit and third-body GMs are taken from the library after being compared with IAU / DE430 literature "
     "values (1e-5 / 1e-7 relative); Earth GM and radius, c, solar constant and solar radius are the oracle's own literals",
@@ -120,6 +128,22 @@ def _epochs(tier, seed):
         ("multi_day_offset", datetime(2018, 5, 5, 0, 0, 0), 3 * 86400.0 + 5 * STEP, True),
         ("off_grid", datetime(2019, 7, 4, 3, 22, 30), 1234.567, False),
     ]
+    # a fraction of a second next to a series boundary (start 8 h earlier on a whole second, like a scenario start):
+    # 4-day boundary = Moon / Earth-centre series, 16-day = Sun / Earth-Moon barycentre / Venus, 32-day = Jupiter / Saturn
+    # and all the shorter ones.  Offsets are staggered so that a window proportional to the series length (e.g. the last
+    # 5e-7 of a series = 0.17 / 0.69 / 1.38 s) is entered by the longest series only, and by all of them at 1 ms / 1 ulp.
+    e4, e16 = e32 + timedelta(days=4), e32 + timedelta(days=16)
+    h8 = timedelta(hours=8)
+    out += [
+        ("edge4_minus_50ms", e4 - h8, 28800.0 - 0.05, False),
+        ("edge4_plus_50ms", e4 - h8, 28800.0 + 0.05, False),
+        ("edge16_minus_300ms", e16 - h8, 28800.0 - 0.3, False),
+        ("edge32_minus_1s", e32 - h8, 28800.0 - 1.0, False),
+        ("edge32_minus_1ms", e32 - h8, 28800.0 - 0.001, False),
+        ("edge32_plus_1ms", e32 - h8, 28800.0 + 0.001, False),
+        # 3e-5 s < 1 ulp of the Julian date (4.02e-5 s) but > ulp/2: start + t/86400 is the last date before the edge
+        ("edge16_minus_1ulp", e16 - h8, 28800.0 - 3.0e-5, False),
+    ]
     if tier == "thorough":
         for k in range(12):
             d = datetime(2014, 1, 2) + timedelta(days=(seed * 7919 + 1234 + 263 * (k + 1)) % 3190, seconds=(7 * k + 3) * STEP)
@@ -127,6 +151,8 @@ def _epochs(tier, seed):
         for k in range(5):
             ek = _jd_to_datetime(KERNEL_JD0 + 32.0 * (732 + (seed * 37 + 11 + 19 * (k + 1)) % 99))
             out.append((f"edge32_at_{k + 1}", ek - timedelta(seconds=STEP), STEP, True))
+            out.append((f"edge32_minus_{(1, 20, 400)[k % 3]}ms_{k + 1}", ek - h8, 28800.0 - (0.001, 0.02, 0.4)[k % 3], False))
+            out.append((f"edge4_minus_{(100, 5)[k % 2]}ms_{k + 1}", ek + timedelta(days=4 * (k + 1)) - h8, 28800.0 - (0.1, 0.005)[k % 2], False))
     return [(lab, st.isoformat(), t, g) for lab, st, t, g in out]
 
 
@@ -168,6 +194,13 @@ def _oracle_terms(start: datetime, t: float, r, v, model, degree, order, ratio):
         "ns": rot @ fr.geopotential_accel(r_ecef, model, degree, order),
         "gr": fr.relativity_accel(r, v),
     }
+    # An epoch within the Julian-date resolution of a UTC midnight: the Earth-orientation table is a step function of
+    # the calendar day, and whether the instant (known to 4e-5 s) is reduced with the row of the day that ends or of the
+    # day that begins is within rounding of that threshold -> either row is admissible (classified either-way).
+    alt = _midnight_alt(dt)
+    if alt is not None:
+        rot2 = _rotation(alt)
+        terms["ns_alt"] = rot2 @ fr.geopotential_accel(rot2.T @ r, model, degree, order)
     sun = fr.body_position(jd, "sun")
     for b in fr.BODIES:
         pos = sun if b == "sun" else fr.body_position(jd, b)
@@ -177,6 +210,23 @@ def _oracle_terms(start: datetime, t: float, r, v, model, degree, order, ratio):
     # round-off sensitivity of the textbook penumbra formula at this geometry, as an acceleration (see oracle docstring)
     terms["srp_noise"] = _srp_noise(r, sun, ratio)
     return terms
+
+
+def _midnight_alt(dt: datetime):
+    """The following UTC midnight if `dt` is less than 1e-4 s (JD resolution + calendar arithmetic) before it."""
+    mid = datetime(dt.year, dt.month, dt.day) + timedelta(days=1)
+    return mid if 0.0 < (mid - dt).total_seconds() <= 1.0e-4 else None
+
+
+def _err_total(res, got_a, want, terms, tol):
+    """Largest component difference to the reference; next to a midnight either day's orientation row is admissible."""
+    err = fw.maxabs(got_a, want)
+    if "ns_alt" in terms:
+        err2 = fw.maxabs(got_a, want - terms["ns"] + terms["ns_alt"])
+        if (err <= tol) != (err2 <= tol):
+            res.either_way += 1
+        err = min(err, err2)
+    return err
 
 
 def _norm(x):
@@ -353,7 +403,12 @@ def bounds(tier, seed):
         "batch_K": [1, 2, 3, 4] + ([5, 8] if tier == "thorough" else []),
         "harmonic_terms": "every m <= n <= %d (V/W) and every single coefficient C_nm / S_nm, 2 <= n <= %d" % ((40, 40) if tier == "thorough" else (21, 21)),
         "ephemeris_span_jd": [JD_EOP_LO, JD_EOP_HI],
-        "ephemeris_edges": "every edge of every segment used by each body (4-day grid), 5 instants 84.375 s apart",
+        "ephemeris_edges": "every series boundary of every segment used by each body (4-day grid, 799 per body) and of each "
+        "of the 14 kernel segments; coarse lattice: 5 instants 84.375 s apart; fine lattice: boundary -/+ the offsets below",
+        "ephemeris_near_boundary_offsets_s": [JD_ULP * 86400.0] + list(NEAR_SEC),
+        "ephemeris_near_boundary_instants_per_edge": len(_near_instants(JD_EOP_LO + 2.0)),
+        "body_speed_bounds_km_s": V_MAX,
+        "near_boundary_epochs_in_total_and_term_lattices": [e[0] for e in _epochs(tier, seed) if e[0].startswith("edge") and not e[3]],
         "analytic_grid": "6 h over the whole span",
     }
 
@@ -492,7 +547,7 @@ def _run_perturb(res, item):
                     got[key] = d
                     want, pert = _expected(terms, bodies, srp, gr)
                     tol = _tol_total(terms, pert, on_grid)
-                    err = fw.maxabs(d[3:], want)
+                    err = _err_total(res, d[3:], want, terms, tol)
                     ok = bool(err <= tol) and bool(np.array_equal(d[:3], v)) and bool(np.all(np.isfinite(d)))
                     res.case(
                         "total/perturbations",
@@ -571,7 +626,7 @@ def _run_batch(res, item):
     for s in pool:
         terms = _oracle_terms(start, t, s[:3], s[3:], model, degree, order, ratio)
         want, pert = _expected(terms, bodies, 1, 1)
-        oracle.append((want, _tol_total(terms, pert, on_grid), _norm(terms["pm"])))
+        oracle.append((want, _tol_total(terms, pert, on_grid), _norm(terms["pm"]), terms))
     for shift in range(k):
         cols = [pool[(j + shift) % k] for j in range(k)]
         mat = np.stack(cols, axis=1)  # (6, K)
@@ -591,10 +646,10 @@ def _run_batch(res, item):
         for j in range(k):
             src = (j + shift) % k
             single = singles[src]
-            want, tol, pmn = oracle[src]
+            want, tol, pmn, terms = oracle[src]
             # same arithmetic on the same numbers; strided vs contiguous BLAS norm may differ in the last bit
             ok_single = fw.maxabs(out[3:, j], single[3:]) <= 8 * EPS * pmn and bool(np.array_equal(out[:3, j], single[:3]))
-            ok_oracle = fw.maxabs(out[3:, j], want) <= tol
+            ok_oracle = _err_total(res, out[3:, j], want, terms, tol) <= tol
             case = {"K": k, "column": j, "state_index": src, "shift": shift, "epoch": label}
             res.case(
                 "batch/column_equals_single",
@@ -950,6 +1005,22 @@ A_MAX = {
     "venus": 1.80e-5,  # 6.17e-6 + GM_sun / (0.7184 AU)^2 = 1.149e-5
 }
 DELTA_DAYS = 2.0**-10  # 84.375 s, exactly representable next to the (x.5 + 4k) edge dates
+# Rigorous bounds of the geocentric speed of each body (km/s): Earth's perihelion speed 30.29 (+ 0.013 about the
+# Earth-Moon barycentre) plus the body's own largest heliocentric speed (Venus 35.26, Jupiter 13.72, Saturn 10.18); Moon:
+# perigee speed 1.08 relative to the Earth.
+V_MAX = {"sun": 30.4, "moon": 1.15, "jupiter": 44.5, "saturn": 41.0, "venus": 66.0}
+JD_ULP = 2.0**-31  # spacing of doubles in [2^21, 2^22) days, i.e. of every Julian date used here: 4.02e-5 s
+NEAR_SEC = (1.0e-4, 1.0e-3, 0.02, 0.1, 0.5, 2.0, 10.0)  # s; the coarse lattice continues with 84.375 and 168.75 s
+
+
+def _near_instants(edge):
+    """Representable Julian dates edge -/+ {1 ulp, NEAR_SEC} (sorted, distinct, the edge itself excluded)."""
+    out = {edge - JD_ULP, edge + JD_ULP}
+    for sec in NEAR_SEC:
+        out.add(edge - sec / 86400.0)
+        out.add(edge + sec / 86400.0)
+    out.discard(edge)
+    return sorted(out)
 
 
 def _run_ephem_edges(res, item):
@@ -1007,6 +1078,58 @@ def _run_ephem_edges(res, item):
             item=("ephem_edges", body, edge - 0.5, edge + 0.5),
         )
         res.observe(pts[2])
+        # fine lattice: a fraction of a second either side of the boundary (a series mis-selected / mis-scaled only within
+        # a sliver next to the boundary is invisible 84 s away)
+        near = _near_instants(edge)
+        npts = [np.array(cls.getPosition(jd), dtype=float) for jd in near]
+        nvec = np.array(cls.getPosition(list(near)), dtype=float)
+        allj = sorted(zip(jds + near, pts + npts), key=lambda x: x[0])
+        # continuity: |p(t2) - p(t1)| <= max|v| (t2 - t1) for every pair of neighbouring instants of the merged lattice;
+        # 1e-5 km = 40 ulp of the largest coordinate (Saturn 1.6e9 km: 2.4e-7 km) covers the rounding of the three summed
+        # series; a mis-selected series moves the body by a series length of its motion (>= 1e5 km), a mis-scaled
+        # argument by >= km
+        for side, sel in (("before", [x for x in allj if x[0] <= edge]), ("after", [x for x in allj if x[0] >= edge])):
+            worst_ratio, worst_at = 0.0, None
+            for (ja, pa), (jb, pb) in zip(sel[:-1], sel[1:]):
+                gap = (jb - ja) * 86400.0  # exact: both within 2^-9 day of the same x.5 date
+                ratio = _norm(pb - pa) / (1.5 * V_MAX[body] * gap + 1.0e-5)
+                if ratio > worst_ratio:
+                    worst_ratio, worst_at = ratio, [(ja - edge) * 86400.0, (jb - edge) * 86400.0]
+            res.case(
+                "ephemeris/continuity_near",
+                dict(case, side=side),
+                bool(worst_ratio <= 1.0),
+                nontrivial=True,
+                signature=f"C13/ephem/continuity_near/{body}/{side}",
+                observed={"worst_step_over_bound": worst_ratio, "between_offsets_s": worst_at},
+                expected="|p(t2) - p(t1)| <= 1.5 vmax (t2 - t1) + 1e-5 km for neighbouring instants",
+                item=("ephem_edges", body, edge - 0.5, edge + 0.5),
+            )
+            # own evaluation, same tolerance as on the coarse lattice
+            sel_near = [(j, q) for j, q in zip(near, npts) if (j < edge) == (side == "before")]
+            errs = [(fw.maxabs(q, fr.body_position(j, body)), (j - edge) * 86400.0) for j, q in sel_near]
+            err, at = max(errs)
+            res.case(
+                "ephemeris/chebyshev_near",
+                dict(case, side=side),
+                bool(err <= 1e-4) and bool(all(np.all(np.isfinite(q)) for _, q in sel_near)),
+                nontrivial=True,
+                signature=f"C13/ephem/chebyshev_near/{body}/{side}",
+                observed={"err_km": err, "at_offset_s": at, "instants": len(sel_near)},
+                expected="<= 1e-4 km",
+                item=("ephem_edges", body, edge - 0.5, edge + 0.5),
+            )
+        ok_vec = nvec.shape == (len(near), 3) and all(np.array_equal(nvec[i], npts[i]) for i in range(len(near)))
+        res.case(
+            "ephemeris/vector_path_near",
+            case,
+            bool(ok_vec),
+            nontrivial=True,
+            signature=f"C13/ephem/vector_path/{body}",
+            observed=list(nvec.shape),
+            item=("ephem_edges", body, edge - 0.5, edge + 0.5),
+        )
+        res.observe(npts[0], npts[-1])
 
 
 # NAIF (centre, target) of each common kernel index, from the NAIF id table (own literal, not KERNEL_MAP)
@@ -1034,12 +1157,26 @@ def _run_ephem_segment(res, item):
         item=item,
     )
     edges = fr.segment_edges(key[0], key[1], JD_EOP_LO, JD_EOP_HI)
+    multi = bool(edges)
     if not edges:  # single-interval segments (planet centre w.r.t. its barycentre): a plain grid
         edges = [JD_EOP_LO + 40.0 * k + (seed % 40) for k in range(79)]
+    res.case(
+        "ephemeris/segment_grid_exact",
+        {"segment": seg.name},
+        math.log2(interval) == int(math.log2(interval)) or not multi,
+        signature="C13/ephem/segment_grid_exact",
+        observed=interval,
+        expected="series length is a power of two days (assumption of the exact boundary arithmetic)",
+        item=item,
+    )
     scale = max(1.0, float(np.max(np.abs(lib_coeff[:, :, 0]))))
     for edge in edges:
         inner = (0.37, 0.5, 0.81) if interval < 100 else (0.37 / interval, 11.5 / interval, 29.0 / interval)
-        for off in (-DELTA_DAYS, 0.0, DELTA_DAYS) + tuple(f * interval for f in inner):
+        offs = (-DELTA_DAYS, 0.0, DELTA_DAYS) + tuple(f * interval for f in inner)
+        if multi:
+            offs += tuple(j - edge for j in _near_instants(edge))  # exact differences
+            _scale_inputs_cases(res, item, seg, jd0, interval, count, edge, [edge + o for o in offs])
+        for off in offs:
             jd = edge + off
             got = np.array(tb_mod.getSegmentPosition(jd, seg), dtype=float)
             want = fr.segment_position(jd, key[0], key[1])
@@ -1049,12 +1186,43 @@ def _run_ephem_segment(res, item):
                 {"segment": seg.name, "jd": jd, "edge": edge},
                 bool(err <= 1e-13 * scale + 1e-9),
                 nontrivial=abs(off) <= DELTA_DAYS,
-                signature=f"C13/ephem/segment/{seg.name}",
+                signature=f"C13/ephem/segment/{seg.name}" + ("/near_boundary" if 0.0 < abs(off) < DELTA_DAYS else ""),
                 observed=got,
                 expected=want,
                 item=item,
             )
         res.observe(got)
+
+
+def _scale_inputs_cases(res, item, seg, jd0, interval, count, edge, jds):
+    """Series index and scaled argument returned by the input scaling must denote the epoch they were computed from.
+
+    Implementation-agnostic invariant (either series may be chosen for an epoch exactly on a boundary): 0 <= idx < count,
+    -1 <= x <= 1 and jd0 + (idx + (x + 1) / 2) * interval == jd.  With power-of-two series lengths every operation of the
+    reconstruction is exact except the final rounding of x itself (<= 1 ulp of 1 -> interval * 2^-53 days) and the sum
+    (1 ulp of the Julian date): tolerance 2 ulp of the Julian date, 7 orders below the smallest window (1e-4 s) probed.
+    """
+    fn = getattr(tb_mod, "_scaleChebyshevInputs", None)
+    if fn is None:  # refactored away: the position level subchecks carry the property
+        return
+    xs_v, idx_v = fn(list(jds), jd0, interval)
+    for i, jd in enumerate(jds):
+        x_s, idx_s = fn(jd, jd0, interval)
+        x_s, idx_s = float(x_s), int(idx_s)
+        recon = jd0 + (idx_s + (x_s + 1.0) / 2.0) * interval
+        ok = 0 <= idx_s < count and -1.0 <= x_s <= 1.0 and abs(recon - jd) <= 2 * JD_ULP
+        ok_vec = float(xs_v[i]) == x_s and int(idx_v[i]) == idx_s
+        off_s = (jd - edge) * 86400.0
+        res.case(
+            "ephemeris/scale_inputs",
+            {"segment": seg.name, "jd": jd, "edge": edge, "offset_s": off_s},
+            bool(ok and ok_vec),
+            nontrivial=abs(jd - edge) <= DELTA_DAYS,
+            signature=f"C13/ephem/scale_inputs/{'vector_path' if ok and not ok_vec else 'before' if jd < edge else 'at_or_after'}",
+            observed={"idx": idx_s, "x": x_s, "epoch_denoted_minus_jd_days": recon - jd, "vector": [float(xs_v[i]), int(idx_v[i])]},
+            expected="0 <= idx < count, -1 <= x <= 1, jd0 + (idx + (x + 1) / 2) interval == jd",
+            item=item,
+        )
 
 
 def _run_ephem_analytic(res, item):
